@@ -103,8 +103,12 @@ class FnModel:
                 self.effects.append(Effect('fcall', src(c.func), src(c), g, e, c, c.func))
             elif e.kind == 'return':
                 val = w.expand(e.value, self.ren) if e.value is not None else None
-                self.returns.append(Effect('return', '', src(val) if val is not None else 'None',
-                                           g, e, val))
+                # a conditional value that only shows after expansion (a helper's result bound
+                # to a local) is split into guarded alternatives like a literal one
+                for v_alt, g_alt in (self._alts(val, g) if val is not None else [(None, g)]):
+                    self.returns.append(Effect('return', '',
+                                               src(v_alt) if v_alt is not None else 'None',
+                                               g_alt, e, v_alt))
             elif e.kind == 'raise':
                 val = w.expand(e.value, self.ren) if e.value is not None else None
                 self.raises.append(Effect('raise', '', src(val) if val is not None else '',
